@@ -302,6 +302,33 @@ Proof.
   intros [|[|[|[|i]]]] Hi; [apply Qceqb_spec; vm_compute; reflexivity ..|cbn [map length] in Hi; lia].
 Qed.
 
+(* a refused configuration leaves the object as it was (true of the model by construction: a refused assignment is a no-op;
+   its content is carried by the correspondence check on histories with refused assignments at every position), and over ANY
+   sequence of assignments bins_number remains the bin count of the edges in force, which are the LAST accepted list *)
+Theorem refused_edges_leave_the_configuration :
+  forall (tol : Qc) (cfg : mia_cfg) (l : list Qc), edges_ok tol l = false -> assign_edges tol cfg l = cfg.
+Proof. exact assign_refused. Qed.
+Print Assumptions refused_edges_leave_the_configuration.
+
+Theorem configuration_after_any_assignments :
+  forall (tol : Qc) (cfg : mia_cfg) (ls : list (list Qc)),
+  cfg_consistent cfg -> (forall e, cfg_edges cfg = Some e -> edges_ok tol e = true) ->
+  let cfg' := fold_left (assign_edges tol) ls cfg in
+  cfg_consistent cfg'
+  /\ (forall e, cfg_edges cfg' = Some e -> edges_ok tol e = true)
+  /\ cfg' = match find (edges_ok tol) (rev ls) with
+            | Some l => {| cfg_edges := Some l; cfg_bins := nbins l |}
+            | None => cfg
+            end.
+Proof. exact assign_history. Qed.
+Print Assumptions configuration_after_any_assignments.
+
+Example configuration_history_nonvacuous :
+  let cfg := {| cfg_edges := None; cfg_bins := 8 |} in
+  let cfg' := fold_left (assign_edges mia_tol) [map qi [0; 1; 2; 3; 4]; map qi [0; 1; 3]; [qi 5]; map qi [3; 2; 1]]%Z cfg in
+  cfg_bins cfg' = 4%nat /\ cfg_bins (assign_edges mia_tol cfg (map qi [0; 1; 3]%Z)) = 8%nat.
+Proof. vm_compute. split; reflexivity. Qed.
+
 (* ============================================================================================ the correspondence check *)
 (* mia_check accepts what the real MIADistinguisher returned on this input (edges [0;49;98], uint8 traces, two update()
    calls, one undeclared value, one sample beyond the last edge; the literal was printed by tools/props/C13.py) and
